@@ -49,7 +49,7 @@ func runAbort(rep *Report) {
 						break
 					}
 				}
-				how := []string{"rollback", "rollback", "close", "fault-commit"}[r.Intn(4)]
+				how := []string{"rollback", "rollback", "close", "fault-commit", "flush-fault-abort"}[r.Intn(5)]
 				if bound && r.Chance(60) {
 					how = "fault-commit"
 				}
